@@ -226,6 +226,7 @@ func (c *Client) runTxn(h *History, idx int, p Program, rec *TxnRec) bool {
 		rec.Outcome = "failed"
 		return false
 	}
+	c.open = append(c.open, txn)
 	rec.BeginRetSeq = h.next()
 	rec.StartTS = txn.StartTS()
 	txn.SetPessimistic(p.Mode.Pessimistic)
